@@ -594,3 +594,34 @@ def c12_monitor(case, frames):
             if ch not in seen:
                 return ("decorator on %s exchanged a width outside every column (cycle at event %d)" % (ch, c["begin"]), "exchange-outside-columns")
     return None
+
+
+def c01_monitor(case, frames):
+    """Wait was reached and returned; every bar has stopped"""
+    evs = events(case)
+    for seq, k, a in evs:
+        if k == "HANG":
+            return ("the scenario hung at '%s'" % " ".join(a), "hang-" + (a[0] if a else "unknown"))
+    invoked = any(k == "CL_WAIT" for _, k, a in evs) or any("wait" == l.split()[1] for l in case.get("script", []) if len(l.split()) > 1)
+    waited = any(k == "RET_WAIT" for _, k, a in evs)
+    if invoked and not waited:
+        return ("Progress.Wait was called and did not return", "wait-did-not-return")
+    if waited:
+        for seq, k, a in evs:
+            if k == "FINAL" and a[4] == "1":
+                return ("bar %s still reports IsRunning after Wait returned" % a[0], "running-after-wait")
+    return None
+
+
+def c02_monitor(case, frames):
+    """late calls: prompt, documented values"""
+    evs = events(case)
+    final = {}
+    for seq, k, a in evs:
+        if k == "HANG":
+            return ("the scenario hung at '%s'" % " ".join(a), "hang-" + (a[0] if a else "unknown"))
+        if k == "LATE_WRITE" and (a[0] != "0" or a[1] != "1"):
+            return ("Write after Wait returned (%s, ErrDone=%s)" % (a[0], a[1]), "late-write-result")
+        if k == "LATE_ADD" and (a[0] != "1" or a[1] != "1"):
+            return ("Add after Wait returned (bar nil=%s, ErrDone=%s)" % (a[0], a[1]), "late-add-result")
+    return None
